@@ -61,7 +61,7 @@ def main():
         sys.exit(2)
     pids = args
     if args == ['all']:
-        pids = sorted(f[:-3].upper() for f in os.listdir(os.path.join(HERE, 'rules')) if f.startswith('c') and f.endswith('.py'))
+        pids = sorted(f[:-3].upper() for f in os.listdir(os.path.join(HERE, 'rules')) if len(f) == 6 and f.startswith('c') and f[1:3].isdigit() and f.endswith('.py'))
     worst = 0
     for pid in pids:
         try:
